@@ -99,7 +99,7 @@ def term_from_model(h, rng):
     for e in h[1:]:
         a = e["a"]
         if a in ("LcRec", "NodeRec"):
-            steps.append({"a": a})
+            steps.append({"a": a, "stale": 1} if rng.random() < 0.1 else {"a": a})
         elif a == "Fault":
             last = steps[-1]
             want = "LcRec" if e["ctl"] == "lc" else "NodeRec"
@@ -128,6 +128,7 @@ def term_from_model(h, rng):
             steps.append({"a": "Tick", "d": rng.choice([5, 5, 6, 20])})
         else:
             raise vlib.InfraError("unknown Termination.tla action %r" % a)
+    steps.append({"a": "Settle"})      # bounded progress: the environment goes quiet, controllers run to a fix-point
     return {"cfg": cfg, "steps": steps}
 
 
@@ -207,6 +208,10 @@ def term_systematic(tier, rng):
             steps = copy.deepcopy(path)
             steps.insert(i + 1, {"a": "Restart"})
             behs.append({"cfg": cfg, "steps": pre + steps + SETTLE, "tag": "restart:%s:%d" % (name, i)})
+            # this reconcile runs on a lagging informer copy (the object as of the previous reconcile of that controller)
+            steps = copy.deepcopy(path)
+            steps[i]["stale"] = 1
+            behs.append({"cfg": cfg, "steps": pre + steps + SETTLE, "tag": "stale:%s:%d" % (name, i)})
         # faults in the launch prelude itself (before deletion): every lifecycle write of the launching reconcile
         for f in (api("patch", "NodeClaim", "-", 1), api("patch", "NodeClaim", "-", 2), api("patch", "NodeClaim", "status", 1)):
             for restart in (False, True):
@@ -420,6 +425,8 @@ def scan(files, nbehs):
                     total["%s:%s" % (ev["verb"], ev["err"])] += 1
             elif e == "Env":
                 pre[(ev["kind"], ev["name"])] = ev["post"]
+            elif e == "Settled":
+                total["settled:claimGone=%s,nodeGone=%s,instancesLeft=%d" % (ev["claimGone"], ev["nodeGone"], ev["instancesLeft"])] += 1
             elif e == "Prov" and ev["actor"] != "env":
                 total["prov:%s:%s" % (ev["call"], ev["err"])] += 1
     return info, total
